@@ -32,14 +32,20 @@ package cli
 //@   updates nothing
 //@   ensures[C14] one-selector-per-occurrence-verbatim: result == nil && len(*m) == len(old(*m)) + 1 && (*m)[len(old(*m))] == value && (forall k int :: 0 <= k && k < len(old(*m)) ==> (*m)[k] == old((*m)[k]))
 
-//@ func cli.printError [C01,C14]
+// C12 at the command line: the quoted line and the caret column are printed as the error carries them
+// (no library post-processing of either).
+//@ func cli.printError [C01,C12,C14]
 //@   updates nothing
+//@   externals[C12,C14] the-line-and-caret-are-printed-as-reported: fmt.Fprintf, fmt.Fprintln, strings.Repeat
 
 // The command line (C14, C01): always returns 0 or 1; any error of the interpreter gives 1; -o is
 // refused with several inputs; -o FILE writes, into a truncated file, exactly the string that -o -
 // prints; selectors and files are handed to the interpreter in the order given.
+//@ ghost $argv []string
 //@ func cli.Run [C01,C03,C04,C14]
 //@   requires !$faulted
+//@   after flag.Args: $argv = ret0
+//@   assert[C14] with-f-every-argument-is-an-input-file-otherwise-the-first-is-the-program: (len(*progFile) > 0 && !readStdin ==> len(filePaths) == len($argv) && (forall k int :: 0 <= k && k < len($argv) ==> filePaths[k] == $argv[k])) && (len(*progFile) == 0 && len($argv) >= 1 ==> arg0 == $argv[0] && (!readStdin ==> len(filePaths) == len($argv) - 1 && (forall k int :: 0 <= k && k < len(filePaths) ==> filePaths[k] == $argv[k+1]))) && (len(*progFile) == 0 && len($argv) == 0 ==> arg0 == "") @ EvalProgram
 //@   updates $faulted, $out
 //@   init $ranProgram = false
 //@   init $truncating = false
@@ -61,3 +67,5 @@ package cli
 //@   assert[C03,C14] inputs-are-handed-over-as-open-files-not-read-here: forall k int :: 0 <= k && k < len(arg1) ==> istype(arg1[k].Reader, "*os.File") @ EvalProgram
 //@   loop 0 invariant[C03,C14] open-files-so-far: forall k int :: 0 <= k && k < len(inputFiles) ==> istype(inputFiles[k].Reader, "*os.File")
 //@   loop 0 invariant files-in-order: !$faulted && len(inputFiles) == rangeindex + 1 && !$ranProgram
+//@   loop 0 invariant[C14] files-are-named-in-the-order-given: !readStdin ==> (forall k int :: 0 <= k && k < len(inputFiles) ==> inputFiles[k].Name == filePaths[k])
+//@   assert[C14] files-are-handed-over-in-the-order-given: !readStdin ==> (forall k int :: 0 <= k && k < len(arg1) ==> arg1[k].Name == filePaths[k]) @ EvalProgram
